@@ -10,7 +10,7 @@ SPEC = {
              'rewritings: every existing blank widened to 1-6 blanks, blanks added at both ends, a "#" comment appended whose text is drawn '
              'from the lexicon itself (month names, numbers, currency codes, keywords, a full evaluable line), and the words of the classes '
              'named by the statement (currency codes, month names, zone names, connectives, variable names) re-cased (lower, upper, title, '
-             'random); the value of the rewritten line must equal the value of the base line; blank-only and comment-only lines must give an '
+             'random), among them names containing a written operator word and the literal words of rules an application added with capitals in their patterns; the value of the rewritten line must equal the value of the base line; blank-only and comment-only lines must give an '
              'empty slot. Only base lines that evaluate to a value are used. non-trivial = a compared pair; distinct = distinct (base, rewriting)'),
     'min_nontrivial': 3000,
     'budget_s': {'quick': 35, 'thorough': 360},
